@@ -130,6 +130,7 @@ type Enc struct {
 	curLemma    string
 	curCallArgs []ssa.Value
 	assertDone  map[*AssertAt]bool
+	snaps       map[string]SVal // snapshot_at values by name
 	canaries    []*Obl
 	curInstr    ssa.Instruction   // instruction of the verified function being encoded (not of inlined callees)
 	lockHeap    map[string]string // heap right after the first Lock in the function body
